@@ -22,6 +22,9 @@ type histParams struct {
 	Scenarios bool
 	// WindowBudget is the number of operations slipped into the windows of one compaction.
 	WindowBudget int
+	// FaultySyncPct: share (percent) of explicit Sync calls whose fsync is made to fail (requires core.HBFaults);
+	// the failed Sync must return an error, and only a later successful Sync counts.
+	FaultySyncPct int
 	// Classify is called before a window write with the key about to be written.
 	Classify func(hb *core.HB, key []byte)
 }
@@ -185,7 +188,16 @@ func genHistory(c *core.Ctx, rng *rand.Rand, base crashfs.Image, admissible []co
 		case r < 75+p.CompactPct:
 			hb.Compact()
 		case r < 75+p.CompactPct+p.SyncPct:
-			hb.Sync()
+			if p.FaultySyncPct > 0 && hb.Faults != nil && !cfg.SyncWrites && rng.Intn(100) < p.FaultySyncPct {
+				hb.SyncFailing()
+				c.Stat("syncs_with_failing_fsync", 1)
+				if rng.Intn(2) == 0 && hb.Failed == "" {
+					hb.Sync() // retried without any write in between
+					c.Stat("sync_retries_after_failure", 1)
+				}
+			} else {
+				hb.Sync()
+			}
 		default:
 			if p.Reopen && rng.Intn(2) == 0 {
 				hb.Close()
